@@ -66,7 +66,10 @@ func bits(o migrate.ScannerOptions) string {
 	return string(b)
 }
 
-var reNow = regexp.MustCompile(`[0-9]{14}`)
+var (
+	reNow       = regexp.MustCompile(`[0-9]{14}`)
+	reChangeset = regexp.MustCompile(`--changeset atlas:[0-9]{14}-`)
+)
 
 // errKind maps an error of the readers to the enum the model prints.
 func errKind(err error) string {
@@ -138,11 +141,21 @@ func runPlanCase(w *out.W, tmp string, c *planCase) {
 		panic(err)
 	}
 	defer os.RemoveAll(dir)
-	for _, f := range files {
-		if m := reNow.FindString(f.Name()); m != "" && now == "" && c.fm.name != "atlas" {
-			now = m
+	// the templates call now() once per file name and once for the Liquibase changeset ids: a
+	// second may tick in between; every timestamp is canonicalised to the first one
+	canon := func(s string) string { return s }
+	if c.fm.name != "atlas" {
+		if len(files) > 0 {
+			now = reNow.FindString(files[0].Name())
 		}
-		fobs = append(fobs, hx(f.Name())+"="+hx(string(f.Bytes())))
+		canon = func(s string) string { return reNow.ReplaceAllString(s, now) }
+	}
+	for _, f := range files {
+		content := string(f.Bytes())
+		if c.fm.name == "liquibase" {
+			content = reChangeset.ReplaceAllString(content, "--changeset atlas:"+now+"-")
+		}
+		fobs = append(fobs, hx(canon(f.Name()))+"="+hx(content))
 		if err := os.WriteFile(filepath.Join(dir, f.Name()), f.Bytes(), 0o644); err != nil {
 			// names with a slash etc.: not a case
 			w.Count("write-error")
@@ -193,7 +206,7 @@ func runPlanCase(w *out.W, tmp string, c *planCase) {
 	}()
 	dobs := []string{fmt.Sprintf("dir %d", len(names))}
 	for _, n := range names {
-		dobs = append(dobs, hx(n))
+		dobs = append(dobs, hx(canon(n)))
 	}
 	obs = append(obs, strings.Join(dobs, " "))
 	switch {
